@@ -267,7 +267,7 @@ static void setup(void) {
     OPS[NOPS++] = (op_t){OP_SORT, 0, 0, "qlisttbl_sort"};
     OPS[NOPS++] = (op_t){OP_IOFAIL, 0, 0, "qlisttbl_load"}; OPS[NOPS++] = (op_t){OP_IOFAIL, 1, 0, "qlisttbl_save"};
     OPS[NOPS++] = (op_t){OP_CLEAR, 0, 0, "qlisttbl_clear"};
-    for (int q = 0; q < 4; q++) { OPS[NOPS++] = (op_t){OP_GET, q, 0, "qlisttbl_get"}; OPS[NOPS++] = (op_t){OP_GET, q, 1, "qlisttbl_getmulti"}; }
+    if (sm_hist_mode) for (int q = 0; q < 4; q++) { OPS[NOPS++] = (op_t){OP_GET, q, 0, "qlisttbl_get"}; OPS[NOPS++] = (op_t){OP_GET, q, 1, "qlisttbl_getmulti"}; }   /* in the closure a read is a self-loop that the observation already covers */
     snprintf(SP.prefix, sizeof SP.prefix, "listtbl:%d:%d:%d:", OPT, L, NV);
     SP.nops = NOPS; SP.label = op_label; SP.transition = transition; SP.initial = initial;
 }
@@ -352,13 +352,15 @@ static int worker(int argc, char **argv) {
         }
         if (!strncmp(vc_replay_key, "listtblpair:", 12)) { for (int i = 0; i < 4; i++) NAMES[i] = PAIRNAMES[i]; sscanf(vc_replay_key, "listtblpair:%d:%n", &OPT, &off); L = 3; NV = 2; setup(); vc_case("replay", vc_replay_key); return sm_replay(&SP, vc_replay_key + off); }
         if (sscanf(vc_replay_key, "listtbl:%d:%d:%d:%n", &OPT, &L, &NV, &off) < 3) return 1;
-        setup(); if (argc >= 5 && !strcmp(argv[4], "hist")) sm_hist_mode = 1; vc_case("replay", vc_replay_key); return sm_replay(&SP, vc_replay_key + off);
+        if (argc >= 5 && !strcmp(argv[4], "hist")) sm_hist_mode = 1;
+        setup(); vc_case("replay", vc_replay_key); return sm_replay(&SP, vc_replay_key + off);
     }
     if (argc < 3) return 1;
     if (!strcmp(argv[1], "pair")) { for (int i = 0; i < 4; i++) NAMES[i] = PAIRNAMES[i]; OPT = atoi(argv[2]); L = 3; NV = 2; setup(); snprintf(SP.prefix, sizeof SP.prefix, "listtblpair:%d:", OPT); sm_search(&SP, 0); return 0; }
     if (!strcmp(argv[1], "values")) { OPT = atoi(argv[2]); L = 3; NV = 2; setup(); run_values(); return 0; }
     if (!strcmp(argv[1], "multi")) { OPT = atoi(argv[2]); L = 3; NV = 2; setup(); run_multi(); return 0; }
     OPT = atoi(argv[1]); L = atoi(argv[2]); NV = atoi(argv[3]);
+    if (argc >= 9 && !strcmp(argv[4], "hist")) sm_hist_mode = 1;
     setup();
     if (argc >= 9 && !strcmp(argv[4], "hist")) {   /* listtbl <opt> <L> <NV> hist <n> <depth> <shard> <nshards>: unmerged histories from a table of n entries */
         int n = atoi(argv[5]); uint16_t seed[8];
